@@ -67,7 +67,7 @@ var allowed = map[string]bool{"A": true, "5": true, "3": true}
 
 func main() {
 	c := vk.Init("C07")
-	c.Rule("histories that contain no acceptable Logon (refused and damaged Logons, Heartbeat, TestRequest, Logout, application, unknown types, ResendRequests over 8 ranges incl. e=0, b>e, b=0, beyond the stored range, and the local calls Logout() and Stop() before any logon), both roles, with an empty message store and with a store preloaded through the public Save/SetSeqNum API with 5 messages of an earlier session: EXHAUSTIVE up to length 2 (quick) / 3 (thorough) plus random histories up to length 12; plus real-time idle scenarios (2.6 s of silence on an acceptor before any Logon, after a Logon with an out-of-range interval, after a Logon the application's callback refused; an initiator with N=1 whose Logon is never answered). Every fourth history runs with Opts.Tags.HeartBtInt and .EncryptedMethod left at 0 (only the tags the session needs are configured). Oracle: MsgType of every message on Outgoing() must be A, 5 or 3. distinct = (role, store, sequence); non-trivial = at least one message was emitted or a ResendRequest was in the history")
+	c.Rule("histories that contain no acceptable Logon (refused and damaged Logons, Heartbeat, TestRequest, Logout, application, unknown types, ResendRequests over 8 ranges incl. e=0, b>e, b=0, beyond the stored range, and the local calls Logout() and Stop() before any logon), both roles, with an empty message store and with a store preloaded through the public Save/SetSeqNum API with 5 messages of an earlier session: EXHAUSTIVE up to length 2 (quick) / 3 (thorough) plus random histories up to length 12; plus real-time idle scenarios (2.6 s of silence on an acceptor before any Logon, after a Logon with an out-of-range interval, after a Logon the application's callback refused, after a Logon with HeartBtInt=0 under limits [-1,60]; an initiator with N=1 whose Logon is never answered). Every fourth history runs with Opts.Tags.HeartBtInt and .EncryptedMethod left at 0 (only the tags the session needs are configured). Oracle: MsgType of every message on Outgoing() must be A, 5 or 3. distinct = (role, store, sequence); non-trivial = at least one message was emitted or a ResendRequest was in the history")
 	c.Assume("the application itself sends nothing before logon (the statement is about what the session transmits on its own)")
 	maxLen := c.Pick(2, 3)
 	nRandom := c.Pick(600, 20000)
@@ -208,7 +208,14 @@ func main() {
 			defer wg.Done()
 			role := rig.Role(i % 2)
 			desc := fmt.Sprintf("%s idle for 2.6 s before logon (initiator HeartBtInt=1, acceptor limits [1,60])", role)
-			r, err := rig.NewStepRig(rig.StepCfg{Role: role, HeartBtInt: 1, Limits: &session.IntLimits{Min: 1, Max: 60},
+			lims := &session.IntLimits{Min: 1, Max: 60}
+			zeroInterval := i%8 == 4 && role == rig.Acceptor
+			if zeroInterval {
+				// unusual but accepted configuration: limits that admit an interval of 0; such a Logon cannot be served
+				// (no timer can be built for it) and is refused
+				lims = &session.IntLimits{Min: -1, Max: 60}
+			}
+			r, err := rig.NewStepRig(rig.StepCfg{Role: role, HeartBtInt: 1, Limits: lims,
 				OnLogon: func(ls *session.LogonSettings) error {
 					if !rig.Approve(ls.Username, ls.Password) {
 						return fmt.Errorf("refused")
@@ -222,6 +229,13 @@ func main() {
 			defer r.Close()
 			p := rig.NewPeer()
 			switch {
+			case zeroInterval:
+				desc += " after a Logon with HeartBtInt=0 under limits [-1,60]"
+				res := r.Inbound(p.Logon(0, "0", fixref.F(rig.TUser, "user"), fixref.F(rig.TPass, "pw")))
+				if res.Logged {
+					c.Count("zero_interval_logons_accepted(not judged here)", 1)
+					return
+				}
 			case i%8 >= 6 && role == rig.Acceptor:
 				// a Logon that passes every library check (N=1 is within the limits) but is refused by the application, then silence
 				desc += " after a Logon the application's callback refused"
